@@ -144,6 +144,28 @@ def main(run, tier):
     verify_functions(run, cs, dict((c.qualname, c) for c in cs), {}, tier=tier, both=(tier == 'thorough'))
     from . import pathobl
     pathobl.add(run, tier)
+    # ---- bounded: normalize_mapping_line against its decode-view post-condition, exhaustively over short lines
+    from spec import sourcemap_v3 as _v3
+    segs = [(), (0,), (2,)] + [(dc, ds, dl, dsc) for dc in (0, 3) for ds in (0, 1, -1) for dl in (0, 1, -1) for dsc in (0, 3, -2)]
+    segs += [(3, 0, 0, 3, 0), (3, 0, 0, 3, 1), (0, 1, -1, 0, 2), (1, 0, 0, 3, -1)]
+    nn = 0
+    bad = None
+    for L in range(0, 4 if tier == 'quick' else 5):
+        pool = segs if L <= 2 else segs[::3] + segs[-4:] if L == 3 else segs[::7]
+        for line in itertools.product(pool, repeat=L):
+            for carry in (0, 4):
+                nn += 1
+                res, out = sm.normalize_mapping_line(list(line), carry)
+                why = _v3.normalized_line_defect(line, carry, res, out)
+                if why and (bad is None or len(line) < len(bad[0])):
+                    bad = (line, carry, res, out, why)
+    if bad:
+        why = 'normalize_mapping_line(%r, %r) = (%r, %r): %s' % bad
+        run.failed('rt.normalize_mapping_line', 'E4/bounded', repr(bad[:2]), dict(line=repr(bad[0]), carry=bad[1], problem=why), observed=why,
+                   required='a linearly interpolating V3 consumer sees the same mapping at every input segment', replayed=True)
+    run.bounded_check('rt.normalize_mapping_line', 'all lines of <= 2 segments over %d relative segments (deltas of -1/0/1 in source and line, '
+                      'in and out of column sync, names, terminators, empty), thinned alphabets for 3%s; carry 0 and 4' % (
+                          len(segs), '' if tier == 'quick' else ' and 4'), nn)
     # ---- bounded: synthetic streams
     n = nfail = 0
     for frags in synthetic_streams(tier, run.seed):
